@@ -20,6 +20,7 @@ type Interp struct {
 	Covered map[parse.Node]bool // nodes executed at least once (over all runs)
 	// Trace of data actions: where the output of a data-valued action was written
 	OnAction func(tree string, n *parse.ActionNode, v *Value, printed string)
+	OnFunc   func(tree, name string, node parse.Node, args []*Value)
 	depth    int
 }
 
@@ -527,6 +528,9 @@ func (s *state) evalFunction(dot *Value, node *parse.IdentifierNode, cmd parse.N
 			b.WriteString(p)
 		}
 		return Str(b.String()), nil
+	}
+	if s.in.OnFunc != nil {
+		s.in.OnFunc(s.tree, name, cmd, av)
 	}
 	f, ok := s.in.Funcs[name]
 	if !ok {
